@@ -56,47 +56,56 @@ var (
 )
 
 var methods = map[string]func(e *zerolog.Event) *zerolog.Event{
-	"Str":         func(e *zerolog.Event) *zerolog.Event { return e.Str("s", "value") },
-	"Strs":        func(e *zerolog.Event) *zerolog.Event { return e.Strs("ss", aStrs) },
-	"Bytes":       func(e *zerolog.Event) *zerolog.Event { return e.Bytes("b", aBytes) },
-	"Hex":         func(e *zerolog.Event) *zerolog.Event { return e.Hex("h", aBytes) },
-	"Bool":        func(e *zerolog.Event) *zerolog.Event { return e.Bool("bo", true) },
-	"Bools":       func(e *zerolog.Event) *zerolog.Event { return e.Bools("bs", aBools) },
-	"Int":         func(e *zerolog.Event) *zerolog.Event { return e.Int("i", -5) },
-	"Ints":        func(e *zerolog.Event) *zerolog.Event { return e.Ints("is", aInts) },
-	"Int8":        func(e *zerolog.Event) *zerolog.Event { return e.Int8("i8", -5) },
-	"Ints8":       func(e *zerolog.Event) *zerolog.Event { return e.Ints8("is8", aInts8) },
-	"Int16":       func(e *zerolog.Event) *zerolog.Event { return e.Int16("i16", -5) },
-	"Ints16":      func(e *zerolog.Event) *zerolog.Event { return e.Ints16("is16", aInts16) },
-	"Int32":       func(e *zerolog.Event) *zerolog.Event { return e.Int32("i32", -5) },
-	"Ints32":      func(e *zerolog.Event) *zerolog.Event { return e.Ints32("is32", aInts32) },
-	"Int64":       func(e *zerolog.Event) *zerolog.Event { return e.Int64("i64", -5) },
-	"Ints64":      func(e *zerolog.Event) *zerolog.Event { return e.Ints64("is64", aInts64) },
-	"Uint":        func(e *zerolog.Event) *zerolog.Event { return e.Uint("u", 5) },
-	"Uints":       func(e *zerolog.Event) *zerolog.Event { return e.Uints("us", aUints) },
-	"Uint8":       func(e *zerolog.Event) *zerolog.Event { return e.Uint8("u8", 5) },
-	"Uints8":      func(e *zerolog.Event) *zerolog.Event { return e.Uints8("us8", aU8) },
-	"Uint16":      func(e *zerolog.Event) *zerolog.Event { return e.Uint16("u16", 5) },
-	"Uints16":     func(e *zerolog.Event) *zerolog.Event { return e.Uints16("us16", aU16) },
-	"Uint32":      func(e *zerolog.Event) *zerolog.Event { return e.Uint32("u32", 5) },
-	"Uints32":     func(e *zerolog.Event) *zerolog.Event { return e.Uints32("us32", aU32) },
-	"Uint64":      func(e *zerolog.Event) *zerolog.Event { return e.Uint64("u64", 1<<63) },
-	"Uints64":     func(e *zerolog.Event) *zerolog.Event { return e.Uints64("us64", aU64) },
-	"Float32":     func(e *zerolog.Event) *zerolog.Event { return e.Float32("f32", 1.5) },
-	"Floats32":    func(e *zerolog.Event) *zerolog.Event { return e.Floats32("fs32", aF32) },
-	"Float64":     func(e *zerolog.Event) *zerolog.Event { return e.Float64("f64", 1e21) },
-	"Floats64":    func(e *zerolog.Event) *zerolog.Event { return e.Floats64("fs64", aF64) },
-	"Time":        func(e *zerolog.Event) *zerolog.Event { return e.Time("t", aTime) },
-	"Times":       func(e *zerolog.Event) *zerolog.Event { return e.Times("ts", aTimes) },
-	"Dur":         func(e *zerolog.Event) *zerolog.Event { return e.Dur("d", time.Second) },
-	"Durs":        func(e *zerolog.Event) *zerolog.Event { return e.Durs("ds", aDurs) },
-	"TimeDiff":    func(e *zerolog.Event) *zerolog.Event { return e.TimeDiff("td", aTime, aTime2) },
-	"Timestamp":   func(e *zerolog.Event) *zerolog.Event { return e.Timestamp() },
-	"Err":         func(e *zerolog.Event) *zerolog.Event { return e.Err(aErr) },
-	"AnErr":       func(e *zerolog.Event) *zerolog.Event { return e.AnErr("ae", aErr) },
-	"Dict":        func(e *zerolog.Event) *zerolog.Event { return e.Dict("dict", zerolog.Dict().Str("a", "b").Int("n", 1)) },
-	"Array":       func(e *zerolog.Event) *zerolog.Event { return e.Array("arr", zerolog.Arr().Int(1).Str("x")) },
-	"Object":      func(e *zerolog.Event) *zerolog.Event { return e.Object("obj", aObj) },
+	"Str":       func(e *zerolog.Event) *zerolog.Event { return e.Str("s", "value") },
+	"Strs":      func(e *zerolog.Event) *zerolog.Event { return e.Strs("ss", aStrs) },
+	"Bytes":     func(e *zerolog.Event) *zerolog.Event { return e.Bytes("b", aBytes) },
+	"Hex":       func(e *zerolog.Event) *zerolog.Event { return e.Hex("h", aBytes) },
+	"Bool":      func(e *zerolog.Event) *zerolog.Event { return e.Bool("bo", true) },
+	"Bools":     func(e *zerolog.Event) *zerolog.Event { return e.Bools("bs", aBools) },
+	"Int":       func(e *zerolog.Event) *zerolog.Event { return e.Int("i", -5) },
+	"Ints":      func(e *zerolog.Event) *zerolog.Event { return e.Ints("is", aInts) },
+	"Int8":      func(e *zerolog.Event) *zerolog.Event { return e.Int8("i8", -5) },
+	"Ints8":     func(e *zerolog.Event) *zerolog.Event { return e.Ints8("is8", aInts8) },
+	"Int16":     func(e *zerolog.Event) *zerolog.Event { return e.Int16("i16", -5) },
+	"Ints16":    func(e *zerolog.Event) *zerolog.Event { return e.Ints16("is16", aInts16) },
+	"Int32":     func(e *zerolog.Event) *zerolog.Event { return e.Int32("i32", -5) },
+	"Ints32":    func(e *zerolog.Event) *zerolog.Event { return e.Ints32("is32", aInts32) },
+	"Int64":     func(e *zerolog.Event) *zerolog.Event { return e.Int64("i64", -5) },
+	"Ints64":    func(e *zerolog.Event) *zerolog.Event { return e.Ints64("is64", aInts64) },
+	"Uint":      func(e *zerolog.Event) *zerolog.Event { return e.Uint("u", 5) },
+	"Uints":     func(e *zerolog.Event) *zerolog.Event { return e.Uints("us", aUints) },
+	"Uint8":     func(e *zerolog.Event) *zerolog.Event { return e.Uint8("u8", 5) },
+	"Uints8":    func(e *zerolog.Event) *zerolog.Event { return e.Uints8("us8", aU8) },
+	"Uint16":    func(e *zerolog.Event) *zerolog.Event { return e.Uint16("u16", 5) },
+	"Uints16":   func(e *zerolog.Event) *zerolog.Event { return e.Uints16("us16", aU16) },
+	"Uint32":    func(e *zerolog.Event) *zerolog.Event { return e.Uint32("u32", 5) },
+	"Uints32":   func(e *zerolog.Event) *zerolog.Event { return e.Uints32("us32", aU32) },
+	"Uint64":    func(e *zerolog.Event) *zerolog.Event { return e.Uint64("u64", 1<<63) },
+	"Uints64":   func(e *zerolog.Event) *zerolog.Event { return e.Uints64("us64", aU64) },
+	"Float32":   func(e *zerolog.Event) *zerolog.Event { return e.Float32("f32", 1.5) },
+	"Floats32":  func(e *zerolog.Event) *zerolog.Event { return e.Floats32("fs32", aF32) },
+	"Float64":   func(e *zerolog.Event) *zerolog.Event { return e.Float64("f64", 1e21) },
+	"Floats64":  func(e *zerolog.Event) *zerolog.Event { return e.Floats64("fs64", aF64) },
+	"Time":      func(e *zerolog.Event) *zerolog.Event { return e.Time("t", aTime) },
+	"Times":     func(e *zerolog.Event) *zerolog.Event { return e.Times("ts", aTimes) },
+	"Dur":       func(e *zerolog.Event) *zerolog.Event { return e.Dur("d", time.Second) },
+	"Durs":      func(e *zerolog.Event) *zerolog.Event { return e.Durs("ds", aDurs) },
+	"TimeDiff":  func(e *zerolog.Event) *zerolog.Event { return e.TimeDiff("td", aTime, aTime2) },
+	"Timestamp": func(e *zerolog.Event) *zerolog.Event { return e.Timestamp() },
+	"Err":       func(e *zerolog.Event) *zerolog.Event { return e.Err(aErr) },
+	"AnErr":     func(e *zerolog.Event) *zerolog.Event { return e.AnErr("ae", aErr) },
+	"Dict":      func(e *zerolog.Event) *zerolog.Event { return e.Dict("dict", zerolog.Dict().Str("a", "b").Int("n", 1)) },
+	"Array":     func(e *zerolog.Event) *zerolog.Event { return e.Array("arr", zerolog.Arr().Int(1).Str("x")) },
+	"Object":    func(e *zerolog.Event) *zerolog.Event { return e.Object("obj", aObj) },
+	// empty / nil arguments of the same methods
+	"ArrayEmpty":  func(e *zerolog.Event) *zerolog.Event { return e.Array("arr0", zerolog.Arr()) },
+	"DictEmpty":   func(e *zerolog.Event) *zerolog.Event { return e.Dict("dict0", zerolog.Dict()) },
+	"StrsEmpty":   func(e *zerolog.Event) *zerolog.Event { return e.Strs("ss0", aStrs[:0]) },
+	"IntsNil":     func(e *zerolog.Event) *zerolog.Event { return e.Ints("is0", nil) },
+	"BytesEmpty":  func(e *zerolog.Event) *zerolog.Event { return e.Bytes("b0", aBytes[:0]) },
+	"StrEmpty":    func(e *zerolog.Event) *zerolog.Event { return e.Str("", "") },
+	"ErrNil":      func(e *zerolog.Event) *zerolog.Event { return e.Err(nil) },
+	"TimesEmpty":  func(e *zerolog.Event) *zerolog.Event { return e.Times("ts0", aTimes[:0]) },
 	"ArrayM":      func(e *zerolog.Event) *zerolog.Event { return e.Array("arrm", aArrM) },
 	"EmbedObject": func(e *zerolog.Event) *zerolog.Event { return e.EmbedObject(aObj) },
 	"RawJSON":     func(e *zerolog.Event) *zerolog.Event { return e.RawJSON("raw", aRaw) },
